@@ -21,7 +21,7 @@ EXPLANATION = (
     "grid reads use clamped indices; (D4) insert_abs shifts right with a descending loop (reads ci-1, writes ci) and "
     "writes the new character after the shift; (D5) fill_region and get_region both clamp all four coordinates and "
     "normalise swapped corners the same way; (D6) cursor_back/forward/up/down move in the direction their name says, by "
-    "count; save/restore copy same-named fields without crossing rows and columns; (D7) lf()/cr()/crlf() composition; (D8) the two scroll moves, evaluated abstractly for every grid height and scroll region of a small box: rows inside the region shift by one, the height is kept and no two rows end up as the same list object (shared with C18-D5). "
+    "count; save/restore copy same-named fields without crossing rows and columns; (D7) lf()/cr()/crlf() composition; (D8) the two scroll moves, evaluated abstractly for every grid height and scroll region of a small box: rows inside the region shift by one, the height is kept and no two rows end up as the same list object (shared with C18-D5); the routines are executed as a whole on row tokens, so slice assignment, insert/del/pop/append forms are all understood; (D2) also: an accessor that memoises its result must be reset by every routine that stores into the grid. "
     "NOT decided: cell-exact equality with a reference grid over operation sequences.")
 TRUSTED = ["list indexing / range() semantics", "sa/ engine (effect closure, symbolic intervals)"]
 ASSUMPTIONS = ["cursor invariant cur_r in [1,rows], cur_c in [1,cols] (established by C18-D6: every writer ends in cursor_constrain)",
